@@ -6,7 +6,8 @@ Projection only (no decision is taken here):
  * ground matrices: conjugated back from Cartesian to lattice components, every 3x3 block written as
    (twelfth k, integer matrix M) with block = M exp(2 pi i k/12), or k = -1 for a zero block;
  * characters: 2 chi = (a + b sqrt3) + i (c + d sqrt3), the unique representation in Z[zeta_12];
- * closeness of neighbouring frequencies against the tolerance given to set_irreps (float comparison, named in the spec);
+ * closeness of neighbouring frequencies against the tolerance given to set_irreps, and against 1e-7 ("numerically equal":
+   a pair closer than the tolerance but resolved marks a tolerance coarser than the spectrum) - float comparisons named in the spec;
  * point-group symbol, chosen table variant, rotation symbols, conventional rotations, labels.
 Exactness flags say whether the projection residual stayed below TOL (a value off the lattice is a finding of
 TLC's Impl invariants, not of the recorder).
@@ -104,7 +105,7 @@ def record(world, eid, qn, cog, tol, coarse=False):
 
     q = [x / 12.0 for x in qn]
     ev = dict(id=eid, qv=list(qn), cg=bool(cog), crs=bool(coarse), st="ok", ox=True, opl=[], gx=True, gm=[], bsets=[], gaps=[],
-              cx=True, chr=[], pgs="", vix=0, rsy=[], cnv=[], lbl=[])
+              gpf=[], cx=True, chr=[], pgs="", vix=0, rsy=[], cnv=[], lbl=[])
     raw = dict(entry=world.entry, q=q, cog=cog, tol=tol, exc=None, margin=0.0)
     ph = world.ph
     try:
@@ -137,6 +138,7 @@ def record(world, eid, qn, cog, tol, coarse=False):
     ev["bsets"] = [[int(b) + 1 for b in s] for s in ir.band_indices]
     f = np.array(ir._freqs)
     ev["gaps"] = [bool(abs(f[i + 1] - f[i]) < tol) for i in range(len(f) - 1)]
+    ev["gpf"] = [bool(abs(f[i + 1] - f[i]) < 1e-7) for i in range(len(f) - 1)]     # numerically equal eigenvalues
     for s, chars in zip(ir.band_indices, ir.characters):
         row = []
         for z in chars:
